@@ -149,6 +149,30 @@ fn text_cases() -> Vec<TextCase> {
         let name = if body.starts_with("rx") { "rx" } else { "rz" };
         out.push(TextCase { name: format!("phase {}", body), text: q1(body), expect: Some((1, vec![(name.to_string(), vec![0], n, d)])), tol });
     }
+    // decimal radians for every reduced k/d, d <= 16, |k| <= 2d, printed with 12 decimals: the parsed phase
+    // must be that angle to 1e-6 (a decimal is an approximation: exact recovery of k/d is not demanded)
+    for d in 1..=16i64 {
+        for k in (-2 * d)..=(2 * d) {
+            if num::integer::gcd(k.abs(), d) != 1 {
+                continue;
+            }
+            let rad = std::f64::consts::PI * (k as f64) / (d as f64);
+            let body = format!("rz({:.12}) q[0];", rad);
+            out.push(TextCase { name: format!("decimal {}", body), text: q1(&body), expect: Some((1, vec![("rz".to_string(), vec![0], k, d)])), tol: 1e-6 });
+        }
+    }
+    // register declarations without any statement, or with a gate definition only: the qubit count is the sum of all registers
+    for comp in [vec![2usize, 3], vec![1, 1], vec![3, 1, 2], vec![1, 4], vec![2, 2, 2]] {
+        let n: usize = comp.iter().sum();
+        let mut t = hdr();
+        for (i, sz) in comp.iter().enumerate() {
+            t += &format!("qreg {}[{}];\n", names[i], sz);
+        }
+        out.push(TextCase { name: format!("no statements, registers {:?}", comp), text: t.clone(), expect: Some((n, vec![])), tol: 0.0 });
+        out.push(TextCase { name: format!("no statements, registers {:?} and a creg", comp), text: format!("{}creg m[2];\n", t), expect: Some((n, vec![])), tol: 0.0 });
+        out.push(TextCase { name: format!("definition only, registers {:?}", comp), text: format!("{}gate foo a {{ h a; }}\n", t), expect: Some((n, vec![])), tol: 0.0 });
+        out.push(TextCase { name: format!("one gate on the last qubit, registers {:?}", comp), text: format!("{}x {}[{}];\n", t, names[comp.len() - 1], comp[comp.len() - 1] - 1), expect: Some((n, vec![("x".to_string(), vec![n - 1], 0, 1)])), tol: 0.0 });
+    }
     // user-defined gates are expanded, comments and whitespace ignored
     out.push(TextCase { name: "gate definition".into(), text: format!("{}qreg q[2];\ngate foo a, b {{ h a; cx a, b; }}\n// comment\nfoo q[1], q[0];\n", hdr()), expect: Some((2, vec![("h".into(), vec![1], 0, 1), ("cx".into(), vec![1, 0], 0, 1)])), tol: 0.0 });
     out.push(TextCase { name: "all plain gates".into(), text: format!("{}qreg q[3];\nx q[0]; z q[1]; s q[2]; t q[0]; sdg q[1]; tdg q[2]; h q[0]; cx q[0],q[1]; cz q[1],q[2]; ccx q[0],q[1],q[2]; ccz q[2],q[1],q[0]; swap q[0],q[2]; xcx q[1],q[0]; init_anc q[2]; post_sel q[2];\n", hdr()),
